@@ -1,10 +1,7 @@
 """C01 - calling a generated trait method is calling the original function."""
-from xeng import progs, driver
-from . import _x
+from xeng import progs
+from . import _common
 
 
 def run(out):
-    out.level = 'model_checking'
-    corpus = progs.c01_corpus(out.tier, out.seed)
-    st = driver.run_corpus(out, corpus, f'x_c01_{out.tier}')
-    _x.merge_x(out, st, corpus)
+    _common.run(out, 'C01', x_corpora=[(progs.c01_corpus, 'c01')], s_props=['C01'])
